@@ -203,7 +203,9 @@ def check(assertions, timeout_ms=20000, want_model=False, portfolio=True):
         return r, m, time.time() - t0
     reason = None
     for opts, share in PORTFOLIO:
-        r, m = _check_once(assertions, timeout_ms * share, want_model, opts)
+        # every configuration gets at least 3 s of wall clock: the cheap ones decide seed-sensitive VCs in
+        # milliseconds on an idle machine, but a loaded machine must not turn that into `unknown`
+        r, m = _check_once(assertions, max(timeout_ms * share, min(3000, timeout_ms)), want_model, opts)
         if r != 'unknown':
             return r, m, time.time() - t0
         reason = m
